@@ -73,7 +73,7 @@ func (r *Result) AddFound(f Found) {
 	n := 0
 	worst := -1
 	for i := range r.Found {
-		if r.Found[i].Kind == f.Kind && r.Found[i].Sig == f.Sig && sameOps(r.Found[i].Hist, f.Hist) {
+		if r.Found[i].Kind == f.Kind && r.Found[i].Sig == f.Sig && r.Found[i].Core == f.Core && (f.Core != "" || sameOps(r.Found[i].Hist, f.Hist)) {
 			n++
 			if worst < 0 || len(r.Found[i].Hist) > len(r.Found[worst].Hist) {
 				worst = i
